@@ -314,8 +314,20 @@ static void print_uint8_vector_base64_object(flatcc_json_printer_t *ctx, const v
         ctx->flush(ctx, 0);
     }
     while (ctx->p + len > ctx->pflush) {
-        /* Multiples of 4 output chars consumes exactly 3 bytes before final padding. */
-        k = (size_t)(ctx->pflush - ctx->p) & ~(size_t)3;
+        /*
+         * Multiples of 4 output chars consumes exactly 3 bytes before final padding.
+         * Round up so progress is made also when fewer than 4 chars remain before
+         * the flush point: the reserve past it has room for the last group.
+         */
+        k = ((size_t)(ctx->pflush - ctx->p) + 3) & ~(size_t)3;
+        if (k == 0) {
+            /* Flushing made no room (a fixed buffer no larger than the reserve): overflow has been raised. */
+            return;
+        }
+        if (k >= len) {
+            /* What is left ends within the reserve. */
+            break;
+        }
         n = k * 3 / 4;
         FLATCC_ASSERT(n > 0);
         src_len = k * 3 / 4;
